@@ -22,6 +22,7 @@ import math
 import numpy as np
 
 import builders_confocal as bc
+import c19_alias as al
 import common
 from common import errname
 
@@ -36,6 +37,10 @@ THEOREMS = [
     "Verif.C19.num_frames_idempotent",
     "Verif.C19.F5_witness",
     "Verif.C19.purity_after_repair_partial",
+    "Verif.C19.repair_not_inherited_witness",
+    "Verif.C19.alias_refines",
+    "Verif.C19.alias_inv",
+    "Verif.C19.alias_writes_invisible",
 ]
 
 RULE = (
@@ -90,7 +95,15 @@ RULE = (
     "every object hands out (red, green, blue, rgb, timestamps) is asked and copied, attacked with five in-place writes "
     "(asked again at once where something was written), and finally all of them are asked again and compared with the "
     "copies (a write through one array must not show in another array or object). The calibration / pixel-size block copies every value at the "
-    "moment it is asked. Non-trivial: >=2 steps with a query after the first step."
+    "moment it is asked. BUFFER MODEL of clause 3 (c19_alias.py, ops c19.alias / c19.aliasSpec; both tiers): on fixed kymographs "
+    "(3x2 and 2x1 pixels x lines; thorough: 4x3 too) every history of length <= 3 that ends with a request and every history of "
+    "length 4 that ends with a request and contains a write attempt (thorough: every history of length 4 ending with a request) "
+    "over {get_image red, timestamps, get_image rgb of every object; element write through every array handed out so far; copy, "
+    "crop to rows 1.., bin 2 rows, flip of every object}; random: 400/8000 histories of 3-12 steps on random kymographs (2-6 "
+    "pixels, 1-4 lines, photon streams starting 0-2 samples early) with all colours, writes at random elements, random crops "
+    "and bin factors, calibrate_to_kbp, flips of processed kymographs, derivations of derived objects; the writes are really "
+    "attempted on the real ndarrays, never-written twins answer each step alone. Non-trivial: >=2 steps with a query after "
+    "the first step (buffer stream: a write attempt and a later request)."
 )
 TRUSTED = [
     "the model answers with provenance terms (which [start, stop) window a value was computed from, through which closures); "
@@ -125,8 +138,10 @@ ASSUMPTIONS = [
     "wave, exceeds the frames of the image and indexing raises - outside this property)",
     "flip is applied to unprocessed kymographs with >=2 pixels only (a flipped view calls the view's factory functions "
     "directly; one-pixel kymographs fall back on a pixel time that needs two rows)",
-    "NumPy buffer identity is not modelled: aliasing is checked by in-place write attempts only (confocal images/timestamps, "
-    "as the property states); channel .data arrays are writable by design and not attacked",
+    "NumPy buffer identity is modelled for kymograph images / timestamps under element writes through the handed-out array "
+    "objects (Verif.C19.Alias; source values read from a clean object); for scans, time slices and truncated objects aliasing is "
+    "checked by in-place write attempts only; routes to a buffer other than the handed-out array object (ndarray.base, "
+    "setflags(write=True)) are outside; channel .data arrays are writable by design and not attacked",
     "plotting and exporting (plot, plot_with_force, export_tiff, export_video) are not queries in the sense of the property "
     "text and are not part of the histories: a cached array that only a plot call modifies is outside this check",
     "scan start/stop/infowave of objects made by Scan.__getitem__ are treated as functions of the derivation path (they are set "
@@ -240,6 +255,9 @@ def cf_make(spec, start=None, stop=None):
     o.start = int(spec["start"] if start is None else start)
     o.stop = int(spec["stop"] if stop is None else stop)
     return o
+
+
+al._MAKE, al._QUIET = cf_make, bc.quiet
 
 
 def cf_static(o, kind):
@@ -854,6 +872,8 @@ def run_twin(case, n):
 
 
 def impl(case):
+    if al.is_alias(case):
+        return al.impl(case)
     with bc.quiet():
         try:
             objs = [build(case)]
@@ -966,6 +986,8 @@ def header(case):
 
 
 def ops(case):
+    if al.is_alias(case):
+        return al.ops(case)
     objmeta = [{}]
     toks = []
     for op in case["hist"]:
@@ -1297,6 +1319,8 @@ class Evaluator:
 def agree(case, i, ia, ma):
     if ma == "bad-op":
         return False
+    if al.is_alias(case):
+        return ia == ma  # integers, flags and refusals: exactly
     terms = ma.split("|") if case["hist"] else []
     if len(terms) != len(case["hist"]):
         return False
@@ -1327,6 +1351,8 @@ def mismatches(case):
 
 
 def oracle(case, ia):
+    if al.is_alias(case):
+        return al.oracle(case, ia)
     hist = json.loads(ia[0])
     fresh = json.loads(ia[1])
     for k, (a, b) in enumerate(zip(hist["hist"], fresh)):
@@ -1362,6 +1388,8 @@ def late(case):
 
 
 def tags(case, r):
+    if al.is_alias(case):
+        return {"family": "alias", "confocal": True, "buffer_model": True}
     t = {"family": case["family"], "confocal": is_confocal(case)}
     try:
         hist = json.loads(r["impl"][0])
@@ -1387,11 +1415,16 @@ def tags(case, r):
 
 
 def nontrivial(case, ia):
+    if al.is_alias(case):
+        return al.nontrivial(case, ia)
     h = case["hist"]
     return len(h) >= 2 and any(o[0] == "q" for o in h[1:])
 
 
 def shrink(case):
+    if al.is_alias(case):
+        yield from al.shrink(case)
+        return
     h = case["hist"]
     for i in range(len(h) - 1, -1, -1):
         if h[i][0] == "q":
@@ -2277,6 +2310,23 @@ def cases(tier, rng):
                 else random_history_chain(sub, fam, obj, sub.randint(4, 8), qs=tr.full_colour_queries() + ["static.0"]))
         yield {"stream": "random-rgb", "family": fam, "obj": obj, "hist": hist, "subseed": i, "mode": mode}
 
+    # ---- clause 3 on the buffer model (c19_alias.py): array requests, in-place writes through every handed-out array, views
+    ends_asking = lambda h: h[-1][0] in ("g", "rgb")
+    attacked = lambda h: ends_asking(h) and any(o[0] == "w" for o in h)
+    for P, lines, k in ((3, 2, 2), (2, 1, 1)) if quick else ((3, 2, 2), (2, 1, 1), (4, 3, 1)):
+        obj = kymo_obj(P, lines, k, 1, 2)
+        hs = al.exhaustive(P, lines, 3, ends_asking) + al.exhaustive(P, lines, 4, lambda h: len(h) == 4 and (attacked(h) or not quick and ends_asking(h)))
+        for h in hs:
+            yield {"stream": "alias-small-scope", "family": "alias", "obj": obj, "hist": h}
+    r12 = rng.fork("c19-alias-random")
+    for i in range(400 if quick else 8000):
+        sub = r12.fork(i)
+        P, lines = sub.randint(2, 6), sub.randint(1, 4)
+        obj = kymo_obj(P, lines, sub.randint(1, 3), sub.randint(0, 2), sub.randint(1, 3), salt=sub.randint(0, 99),
+                       early={c: sub.randint(0, 2) for c in bc.COLORS} if sub.chance(0.3) else None)
+        yield {"stream": "alias-random", "family": "alias", "obj": obj, "hist": al.random_hist(sub, P, lines, sub.randint(3, 12)),
+               "subseed": i}
+
 
 def fix_second_ref(o, nd, shift):
     return o
@@ -2286,6 +2336,9 @@ def extra_coverage(results):
     fam, modes, qn, dn, lens, outcomes, lates = {}, {}, {}, {}, {}, {}, 0
     for r in results:
         c = r["case"]
+        if al.is_alias(c):
+            fam["alias"] = fam.get("alias", 0) + 1
+            continue
         fam[c["family"]] = fam.get(c["family"], 0) + 1
         modes[c.get("mode", "fixed")] = modes.get(c.get("mode", "fixed"), 0) + 1
         lens[len(c["hist"])] = lens.get(len(c["hist"]), 0) + 1
@@ -2301,4 +2354,5 @@ def extra_coverage(results):
             pass
     return {"object_kinds": fam, "object_modes": modes, "queries": qn, "derivations": dn, "history_lengths": lens,
             "answer_kinds": outcomes, "cases_with_late_photon_timeline": lates,
-            "private_members_unreachable": dict(sorted(UNREACHED.items()))}
+            "private_members_unreachable": dict(sorted(UNREACHED.items())),
+            "buffer_machine_branches": al.coverage(results)}
